@@ -798,6 +798,8 @@ type vfc13Link struct {
 	cp       string
 	pos      int
 	off      int64
+	cpos     int   // blocks consumed when the last unit was committed: where a restarted syncer resumes
+	coff     int64 // … its byte offset (what the commit record persists as end offset)
 	halted   bool
 	mode     config.ReplayMode
 	ro       *RedisOutput
@@ -1103,6 +1105,7 @@ func (w *vfc13World) linkRun(r *vfutil.Rand, src int, n int) bool {
 		}
 		next = j + 1
 		w.commitBlock(l, kind, blocks[j], txn, m)
+		l.cpos, l.coff = l.pos+j+1, ends[j]
 	}
 	if status == "eof" {
 		for i := next; i < n; i++ {
@@ -1129,6 +1132,15 @@ func (w *vfc13World) linkRun(r *vfutil.Rand, src int, n int) bool {
 		w.viol = true
 	}
 	return true
+}
+
+// restart: the syncer of the link reading `src` restarts (or its input reconnects): it resumes behind the
+// last unit it committed with a fresh parser; blocks it had passed over since are read again; a stop is forgotten
+func (w *vfc13World) restart(src int) {
+	l := w.links[src]
+	w.evs = append(w.evs, fmt.Sprintf("R%s:%d", vfc13SiteName(src), l.cpos))
+	l.pos, l.off, l.halted = l.cpos, l.coff, false
+	w.s.Count("link_restart")
 }
 
 // commitBlock: the MULTI block the target double received for the unit of
@@ -1326,6 +1338,9 @@ func (w *vfc13World) finish() {
 
 // drain: no more client writes; run the links until both have read everything
 func (w *vfc13World) drain(r *vfutil.Rand) {
+	if r.Chance(1, 3) {
+		w.restart(r.Intn(2)) // a restart in the quiet phase must not make anything come out twice
+	}
 	pending := w.pendingForeign()
 	emittedBefore := len(w.commits)
 	unread := 0
@@ -1420,8 +1435,10 @@ func vfc13RunHistory(t *testing.T, s *vfutil.Session, sub uint64, nEv int) bool 
 				k = []byte(checkpoint.BisyncMarkerKey(w.links[1-site].cp, checkpoint.BisyncSlotTag(0)))
 			}
 			w.expire(site, k)
-		case x < 90:
+		case x < 86:
 			w.linkRun(r, site, r.Range(1, 6))
+		case x < 90:
+			w.restart(site)
 		case x < 94:
 			// a snapshot unit: the expanded commands of one value (1…150 of them), one MULTI with the rdb marker
 			ns := 1
@@ -1758,6 +1775,8 @@ func vfc13RunScript(t *testing.T, s *vfutil.Session, line string) bool {
 			w.expire(site, vfutil.UnHex(body))
 		case 'l':
 			w.linkRun(r, site, 1)
+		case 'R':
+			w.restart(site)
 		}
 	}
 	w.finish()
